@@ -710,19 +710,18 @@ func mustConv(v interface{}, t tkind) interface{} {
 }
 
 // convElems converts the elements of an untyped list for an append to a typed
-// slice.  An element without a Go conversion is an error; when it is not the
-// first one, the elements before it may already have been written into shared
-// spare capacity, which the property does not settle (under-determined).
+// slice.  An element without a Go conversion is an error, and "an ill-typed
+// operand yields an error and leaves the container unchanged": nothing is written,
+// also not into spare capacity that another slice can see (until round 7 a
+// non-first failing element was treated as under-determined; the implementation
+// did write the elements before it - a genuine defect, repaired in /repo).
 func convElems(rv []interface{}, t tkind) []interface{} {
 	out := make([]interface{}, len(rv))
 	for i, e := range rv {
 		x, r := conv(e, t)
 		switch r {
 		case cFail:
-			if i == 0 {
-				fail()
-			}
-			undet("append stops at an unconvertible element after writing earlier ones")
+			fail()
 		case cUndet:
 			undet("conversion without a Go counterpart")
 		}
